@@ -50,7 +50,21 @@ def execute(job):
         fd, wd = f * det, w * det
         resid = max(np.abs(fd - np.rint(fd)).max(), np.abs(wd - np.rint(wd)).max(), np.abs(back - np.rint(back)).max())
         # wrapping may land on 1.0 - eps; rounding to the grid is fine since all values are multiples of 1/det
-        return {"ev": "scaled", "cell": cell.tolist(), "det": det, "pbc": pbc, "pos": pos.tolist(),
+        # history: the same cell object is used again after it was changed in place (swap_basis -> Atoms.set_cell)
+        from ase import Atoms as _Atoms
+
+        at_h = _Atoms(numbers=[6] * n, positions=P, cell=C.copy(), pbc=pbc)
+        g.to_scaled(at_h.cell, P.copy())
+        ia, ib = int(rng.integers(0, 3)), int(rng.integers(0, 3))
+        g.swap_basis(at_h, ia, ib)
+        f_after = g.to_scaled(at_h.cell, P.copy())
+        cell_after = np.rint(np.asarray(at_h.cell[:])).astype(int)
+        det_after = int(round(np.linalg.det(cell_after.astype(float))))
+        fa = f_after * det_after
+        resid = max(resid if False else 0.0, float(np.abs(fa - np.rint(fa)).max()))
+        hist = {"cell_after": cell_after.tolist(), "det_after": det_after, "fdet_after": np.rint(fa).astype(int).tolist(),
+                "hist_exact": bool(resid < 1e-6)}
+        return {"ev": "scaled", "cell": cell.tolist(), "det": det, "pbc": pbc, "pos": pos.tolist(), **hist,
                 "fdet": np.rint(fd).astype(int).tolist(), "wdet": np.rint(wd).astype(int).tolist(),
                 "back": np.rint(back).astype(int).tolist(), "exact": bool(resid < 1e-6), "cfg": [kind, str(name), str(pbc), k]}
     if kind in ("minimize", "com", "swap"):
